@@ -341,11 +341,16 @@ fn string_sources(thorough: bool) -> Vec<String> {
 fn judge_string(src: &str, l: &mut Local) {
     let decoded = decode_string(src);
     for enc in Enc::all() {
-        for wrap in ["plain", "sizeof", "concat"] {
+        for wrap in ["plain", "sizeof", "concat", "rule-arg", "rule-literal"] {
             let call = format!("{}({})", enc.name(), src);
             let (prog, expect): (String, Result<String, RErr>) = match wrap {
-                "plain" => (
-                    format!("#d {}\n", call),
+                // a string is a value like any other: a production may consist of it, an argument may carry it
+                "plain" | "rule-arg" | "rule-literal" => (
+                    match wrap {
+                        "plain" => format!("#d {}\n", call),
+                        "rule-arg" => format!("#ruledef\n{{\n    emit {{s}} => s\n}}\nemit {}\n", call),
+                        _ => format!("#ruledef\n{{\n    emit => {}\n}}\nemit\n", call),
+                    },
                     match &decoded {
                         None => Err(RErr::Error("invalid escape")),
                         Some(t) => encode(t, &enc).and_then(|b| {
@@ -666,6 +671,47 @@ pub fn run(ctx: &Ctx) -> Report {
         judge_typed_tree(&e, pairs[(i % 2) as usize], l)
     }));
 
+    // C3: long FLAT expressions: n terms joined by one left-associative operator, terms carrying unary operators.
+    //     Nothing nests here, so no nesting limit applies, however many operators the expression holds.
+    //     (Only the minimal text is judged: full parenthesisation would nest n deep.)
+    let mut flats: Vec<E> = vec![];
+    for n in [10usize, 30, 49, 50, 51, 52, 64, 100, 200] {
+        for op in [BinOp::Add, BinOp::Sub, BinOp::Xor, BinOp::Or] {
+            for shape in 0..4 {
+                let term = |i: usize| -> E {
+                    let lit = E::int((i % 7 + 1) as i64);
+                    match (shape, i % 2) {
+                        (0, _) => lit,
+                        (1, _) | (3, 0) => E::un(UnOp::Neg, lit),
+                        _ => E::un(UnOp::Not, lit),
+                    }
+                };
+                let mut e = term(0);
+                for i in 1..n {
+                    e = E::bin(op, e, term(i));
+                }
+                flats.push(e);
+            }
+        }
+    }
+    rep.absorb(par_cases(&flats, |e, l| {
+        let expected = eval(e, &Env::new());
+        let min = e.print(false);
+        match &expected {
+            Ok(_) => {
+                l.class("defined-value");
+                l.nontrivial(&min);
+            }
+            Err(RErr::Error(_)) => {
+                l.class("defined-error");
+                l.nontrivial(&min);
+            }
+            _ => l.unspecified += 1,
+        }
+        judge_text(&min, &expected, "flat", json!(min.len()), l);
+        l.traces_validated += 1;
+    }));
+
     // D: literal spellings and strings
     let lits = literal_cases(ctx.thorough);
     rep.absorb(par_cases(&lits, |t, l| judge_literal(t, l)));
@@ -676,6 +722,7 @@ pub fn run(ctx: &Ctx) -> Report {
         json!({"family": "depth<=1 over 23 leaves (direct and through #d / constant)", "trees": d1_full.len() + lf.len()}),
         json!({"family": "depth 2, one depth-1 child in every position, 7 leaves", "trees": nb}),
         json!({"family": "single-operator chains depth 3..6", "trees": chains.len()}),
+        json!({"family": "flat expressions of 10..200 terms with unary operators on the terms", "trees": flats.len()}),
         json!({"family": "trees over typed (sized, possibly negative) rule arguments, depth<=2, x 2 argument pairs", "trees": d1_args.len() as u64 + n_args}),
         json!({"family": "literal spellings", "texts": lits.len()}),
         json!({"family": "string literals x 6 encodings x 3 contexts", "sources": strs.len()}),
